@@ -287,6 +287,27 @@ def intdiag_cases(ctx, r):
             yield {**base, "fn": "delta", "unit": "m", "all": allp, "delta": d, "t": r.choice([0.05, 0.1])}
 
 
+def nearmiss_cases(ctx, r):
+    """path lengths that miss the requested delta by a relative 2^-18 .. 2^-30 (far above rounding, far below numpy's
+    isclose/allclose defaults rtol=1e-5, atol=1e-8): "reaches delta" means >=, "within tolerance" means <= delta*tol, exactly.
+    Poses on a line with dyadic coordinates (all sums exact), identity orientations."""
+    for k in range(40 if not ctx.thorough else 300):
+        D = r.choice([1.0, 2.0, 8.0, 0.5, 64.0])
+        eps = D * 2.0 ** -r.choice([18, 20, 22, 26, 30])
+        xs, x = [0.0], 0.0
+        for j in range(r.randint(3, 7)):
+            x += r.choice([D - eps, D + eps, D, D / 2, D / 2 - eps, D / 2 + eps / 2, D / 4])
+            xs.append(x)
+        pos = [[v, 0.0, 0.0] for v in xs]
+        base = {"kind": "random", "shape": "nearmiss", "pos": pos, "rv": [[0.0, 0.0, 0.0]] * len(pos)}
+        allp = k % 2 == 1
+        tol = r.choice([0.0, eps / D / 2, 2 * eps / D, 0.1])
+        if k % 3 == 0:
+            yield {**base, "fn": "delta", "unit": "m", "all": allp, "delta": D, "t": tol}
+        else:
+            yield {**base, "fn": "path", "all": allp, "delta": D, "t": (D * tol) if allp else 0.0}
+
+
 def flavour_ok(case, fl):
     """int / float32 matrices only where they hold the same values (integer positions, rotations by
     multiples of 90 degrees)"""
@@ -1221,6 +1242,7 @@ def gen_cases(ctx):
     the class-route cases reuse the RPE object / build the trajectory another way (L1, L4)"""
     r2 = random.Random(f"C10-decor/{ctx.seed}")
     yield from intdiag_cases(ctx, random.Random(f"C10-intdiag/{ctx.seed}"))
+    yield from nearmiss_cases(ctx, random.Random(f"C10-nearmiss/{ctx.seed}"))
     for c in gen_base(ctx):
         if "init" in c:
             yield c
